@@ -1,4 +1,5 @@
 """C19 — the output stream contains no redundant events (held-multiset effect discipline, P6)."""
+import re
 from .. import mir, kt, ktx, tables
 from ..kt import MOD, HELD, list_of
 from ..mir import T, show, method_name, mentions
@@ -262,6 +263,10 @@ def check_flow(ctx, ck, K):
                     if t[0] == "field" and t[2] == "events":
                         add(t[1])
             add(ret)
+            # ... and the caller's vector the function was handed to write its events into (`events: &mut Vec<Event>`)
+            for i in range(1, body.argc + 1):
+                if re.match(r"^&mut std::vec::Vec<events::Event>$", body.ltypes.get(i, "")):
+                    add(T("param", i, body.dbg.get(i, "")))
             # stores into fields of flowing values (res.repeat = …) are irrelevant; appends extend the flow backwards
             changed = True
             appends = [e for e in fx.effects if e.kind == "APPEND"]
@@ -297,7 +302,11 @@ def check_flow(ctx, ck, K):
                           detail=None if ok else "an event is pushed onto a vector that does not reach the function's result")
                 if e.kind == "MAPEMIT":
                     n += 1
-                    ok = mir.strip(e.aux[2]) in flow
+                    if e.aux[2] is None:
+                        vec = mir.strip(e.ev.b[0])      # vec.extend(batch.iter().map(..)): written straight into vec
+                        ok = vec in flow or (isinstance(vec, tuple) and vec[0] == "field" and vec[2] == "events" and mir.strip(vec[1]) in flow)
+                    else:
+                        ok = mir.strip(e.aux[2]) in flow
                     ck.ob("C19-F", body.path, "mapped-batch-reaches-the-output", ok, site=e.ev.span)
     ck.floor("C19-F", "flow-obligations", n, 8)
     # Mapper::step returns the callee's result unchanged
